@@ -387,7 +387,45 @@ def lseq_units(tier):
                        "what": "%s loop with %s, then %s loop with %s (%s)" % (l1, c1, l2, c2, shape)}
 
 
+# ------------------------------------------------------------------------------------------ for bounds, printing arrays
+def misc_units(tier):
+    """(a) the bounds of a for loop are evaluated once, before the loop: bounds that are calls with a visible effect, a bound
+    variable that the body changes, a start bound with an effect; (b) println / print of whole arrays of int, bool and
+    string (empty, one element, several; built by literal and by push)."""
+    n = 0
+    for lo_kind in ("literal", "call"):
+        for hi_kind in ("call", "variable-changed-in-body", "arithmetic-on-call"):
+            uname = "misc_%d" % n
+            n += 1
+            g = uname + "_calls"
+            decls = "let mut %s: int = 0\nfn %s_b(v: int) -> int {\n    set %s (+ %s 1)\n    (println \"bound\")\n    return v\n}\nshadow %s_b { assert true }\n" % (g, uname, g, g, uname)
+            lo = "0" if lo_kind == "literal" else "(%s_b 1)" % uname
+            body = "    set %s 0\n    let mut lim: int = 3\n" % g
+            hi = {"call": "(%s_b 3)" % uname, "variable-changed-in-body": "lim", "arithmetic-on-call": "(+ (%s_b 2) 1)" % uname}[hi_kind]
+            body += "    for i in (range %s %s) {\n        (println i)\n        set lim (+ lim 1)\n    }\n    (println %s)\n    (println lim)\n    return 0\n" % (lo, hi, g)
+            start = 0 if lo_kind == "literal" else 1
+            calls = (1 if lo_kind == "call" else 0) + (0 if hi_kind == "variable-changed-in-body" else 1)
+            its = list(range(start, 3))
+            exp = "bound\n" * calls + "".join("%d\n" % i for i in its) + "%d\n%d\n" % (calls, 3 + len(its))
+            yield {"name": uname, "decls": decls, "body": body, "expected": exp, "ret": 0,
+                   "what": "for loop with a %s start bound and a %s end bound: evaluated once, before the loop" % (lo_kind, hi_kind)}
+    arrays = [("int", [], "[]"), ("int", [7], "[7]"), ("int", [1, -2, 3], "[1, -2, 3]"), ("bool", [True, False], "[true, false]"),
+              ("string", [], "[]"), ("string", ["a"], '["a"]'), ("string", ["a", "", "b c"], '["a", "", "b c"]')]
+    for ty, vals, shown in arrays:
+        for how in ("literal", "pushed"):
+            uname = "misc_%d" % n
+            n += 1
+            lit = lambda v: ('"%s"' % v) if ty == "string" else (("true" if v else "false") if ty == "bool" else str(v))
+            if how == "literal":
+                body = "    let xs: array<%s> = [%s]\n" % (ty, ", ".join(lit(v) for v in vals))
+            else:
+                body = "    let mut xs: array<%s> = []\n" % ty + "".join("    set xs (array_push xs %s)\n" % lit(v) for v in vals)
+            body += "    (println xs)\n    (print xs)\n    (println \"\")\n    return %d\n" % len(vals)
+            yield {"name": uname, "body": body, "expected": shown + "\n" + shown + "\n", "ret": len(vals),
+                   "what": "printing the array<%s> %s (%s)" % (ty, shown, how)}
+
+
 def units(tier):
     for u in itertools.chain(esc_units(tier), loop_units(tier), size_units(tier), evo_units(tier), mhist_units(tier), flt_units(tier), grow_units(tier), lsh_units(tier),
-                             lseq_units(tier)):
+                             lseq_units(tier), misc_units(tier)):
         yield u
